@@ -49,6 +49,13 @@ DEFS = {
                     ["alpha", "", 0.5, [0, 1], "", ""],
                     ["sld", "1e-6/Ang^2", 1, [-inf, inf], "sld", ""]],
         form_volume=True, shell_volume=True, modes=["outer radius"], valid="thickness > 0.0"),
+    # the same hollow definition written with the model file's inline C strings
+    # (form_volume = "return ...;") instead of functions in c_code
+    "hollow_inline": dict(
+        parameters=[["radius", "Ang", 20, [0, inf], "volume", ""],
+                    ["thickness", "Ang", 10, [0, inf], "volume", ""],
+                    ["sld", "1e-6/Ang^2", 1, [-inf, inf], "sld", ""]],
+        form_volume=True, shell_volume=True, valid="thickness > 0.0", inline=True),
     "no_volume": dict(
         parameters=[["rg", "Ang", 60, [0, inf], "", ""],
                     ["porod_exp", "", 3, [0, inf], "", ""]]),
@@ -65,7 +72,7 @@ DEFS = {
                     ["d", "Ang", 5, [0, inf], "volume", ""], ["e", "Ang", 7, [0, inf], "volume", ""]],
         form_volume=True, shell_volume=True, modes=["m1", "m2", "m3"], valid="a <= b && b <= c"),
 }
-QUICK = ["one_volume", "sld_pair", "hollow", "no_volume", "vector", "eight"]
+QUICK = ["one_volume", "sld_pair", "hollow", "hollow_inline", "no_volume", "vector", "eight"]
 
 
 def _table(d):
@@ -108,7 +115,14 @@ def make_infos(name):
     d = DEFS[name]
     table = _table(d)
     mc = _module(name, d, False)
-    mc.c_code = _c_code(d, table)
+    if d.get("inline"):
+        mc.Iq = "return q;"
+        if d.get("form_volume"):
+            mc.form_volume = "return 1.0;"
+        if d.get("shell_volume"):
+            mc.shell_volume = "return 1.0;"
+    else:
+        mc.c_code = _c_code(d, table)
     info_c = modelinfo.make_model_info(mc)
     mp = _module(name, d, True)
     lay = None
@@ -336,14 +350,21 @@ def real_defect(name, dim, mesh_d, q, cutoff, mode):
         if kind == "c":
             if d.get("valid"):
                 lines.append("valid = %r" % d["valid"])
-            c = ["double Iq(double q%s) { return %s; }" % ((", " + sig(iqp, False)) if iqp else "", iq_e)]
-            if d.get("form_volume"):
-                c.append("double form_volume(%s) { return %s; }" % (sig(volp, False), vol_e))
-            if d.get("shell_volume"):
-                c.append("double shell_volume(%s) { return %s; }" % (sig(volp, False), shell_e))
-            if d.get("modes"):
-                c.append("double radius_effective(int mode, %s) { return %s; }" % (sig(volp, False), reff_e))
-            lines.append("c_code = '''\n%s\n'''" % "\n".join(c))
+            if d.get("inline"):
+                lines.append("Iq = %r" % ("return %s;" % iq_e))
+                if d.get("form_volume"):
+                    lines.append("form_volume = %r" % ("return %s;" % vol_e))
+                if d.get("shell_volume"):
+                    lines.append("shell_volume = %r" % ("return %s;" % shell_e))
+            else:
+                c = ["double Iq(double q%s) { return %s; }" % ((", " + sig(iqp, False)) if iqp else "", iq_e)]
+                if d.get("form_volume"):
+                    c.append("double form_volume(%s) { return %s; }" % (sig(volp, False), vol_e))
+                if d.get("shell_volume"):
+                    c.append("double shell_volume(%s) { return %s; }" % (sig(volp, False), shell_e))
+                if d.get("modes"):
+                    c.append("double radius_effective(int mode, %s) { return %s; }" % (sig(volp, False), reff_e))
+                lines.append("c_code = '''\n%s\n'''" % "\n".join(c))
         else:
             valid = (d.get("valid") or "").replace("&&", " and ").replace("||", " or ")
             body = "    return np.where(%s, %s, np.nan) + 0*q" % (valid, iq_e) if valid else "    return %s + 0*q" % iq_e
